@@ -87,6 +87,14 @@ where
 
         let base2k: usize = res.base2k().into();
 
+        assert_eq!(
+            pt.base2k(),
+            res.base2k(),
+            "pt.base2k(): {} != res.base2k(): {} (the plaintext limbs are added to the body as they are)",
+            pt.base2k(),
+            res.base2k()
+        );
+
         self.vec_znx_fill_uniform(base2k, &mut res.data, 0, source_xa);
 
         let (mut tmp_znx, scratch_1) = scratch.take_vec_znx(1, 1, res.size());
